@@ -177,7 +177,7 @@ class Outcome:
 
 class Interp:
     def __init__(self, fn_node, consts=None, maxpaths=20000, sym_attrs=(), init_env=None, hooks=None, universes=None,
-                 sub_bases=(), call_syms=None, call_ctors=(), inline=None, loop_summary=False):
+                 sub_bases=(), call_syms=None, call_ctors=(), inline=None, loop_summary=False, resolver=None):
         """sym_attrs: attribute-text suffixes to be treated as Lin symbols (e.g. '_sz')."""
         self.fn = fn_node
         self.results = []
@@ -194,6 +194,7 @@ class Interp:
         self.inline = inline or {}         # 'self.name' -> FunctionDef, interpreted at the call site
         self.fresh = 0
         self.loop_summary = loop_summary   # summarise counted loops: v_after = v_before + N * delta, stores become ranges
+        self.resolver = resolver           # call node -> (FunctionDef, [param names]) of a repository helper, for folding calls with constant arguments
 
     # ---- helpers
     def key(self, p, node):
@@ -274,12 +275,38 @@ class Interp:
                     lv = self.aslin(v)
                     out.append((q, Lin({k: -c for k, c in lv.terms.items()}, -lv.c) if lv else Opq(self.key(q, n))))
             return out
+        if isinstance(n, ast.Subscript) and U(n.value) not in self.sub_bases:
+            out = []
+            for q, b in self.ev(p, n.value):
+                if isinstance(b, Const) and not isinstance(n.slice, ast.Slice):
+                    for q2, i in self.ev(q, n.slice):
+                        if isinstance(i, Const):
+                            try:
+                                out.append((q2, Const(b.v[i.v])))
+                                continue
+                            except Exception:
+                                pass
+                        out.append((q2, Opq(self.key(q2, n))))
+                elif isinstance(b, Const) and isinstance(n.slice, ast.Slice):
+                    try:
+                        lo = self.ev(q, n.slice.lower)[0][1].v if n.slice.lower else None
+                        hi = self.ev(q, n.slice.upper)[0][1].v if n.slice.upper else None
+                        out.append((q, Const(b.v[lo:hi])))
+                    except Exception:
+                        out.append((q, Opq(self.key(q, n))))
+                else:
+                    out.append((q, Opq(self.key(q, n))))
+            return out
         if isinstance(n, ast.Subscript) and U(n.value) in self.sub_bases and not isinstance(n.slice, ast.Slice):
             return [(q, Ctor("sub", [Opq(U(n.value)), v], {}, n)) for q, v in self.ev(p, n.slice)]
         if isinstance(n, ast.Call):
             f = U(n.func)
             if f in self.hooks:
                 return [(p, self.hooks[f](self, p, n))]
+            # calls on / with constants only: fold (table lookups, helper functions over the finite grammar)
+            folded = self.fold_call(p, n, f)
+            if folded is not None:
+                return folded
             if f in self.call_syms:
                 self.fresh += 1
                 return [(p, Opq("%s%d" % (self.call_syms[f], self.fresh)))]
@@ -328,6 +355,76 @@ class Interp:
         if isinstance(n, ast.Compare) or isinstance(n, ast.BoolOp) or (isinstance(n, ast.UnaryOp) and isinstance(n.op, ast.Not)):
             return [(q, Const(t)) for q, t in self.cond(p, n)]
         return [(p, Opq(self.key(p, n)))]
+
+    def fold_call(self, p, n, f):
+        from .consteval import fold_body, Raised, NotConst
+        if n.keywords and any(k.arg is None for k in n.keywords):
+            return None
+        if isinstance(n.func, ast.Name) and n.func.id[:1].isupper() and not (self.resolver and self.resolver(n)):
+            return None
+        # evaluate receiver (for methods) and arguments; all must be constants
+        vals = []
+        cur = [(p, [])]
+        exprs = ([n.func.value] if isinstance(n.func, ast.Attribute) else []) + list(n.args) + [k.value for k in n.keywords]
+        for e in exprs:
+            nxt = []
+            for q, acc in cur:
+                r = self.ev(q, e)
+                if len(r) != 1 or not isinstance(r[0][1], Const):
+                    return None
+                nxt.append((r[0][0], acc + [r[0][1].v]))
+            cur = nxt
+        q, vals = cur[0]
+        if isinstance(n.func, ast.Attribute):
+            recv, args = vals[0], vals[1:len(n.args) + 1]
+            if isinstance(recv, (str, dict, list, tuple)) and not n.keywords and n.func.attr in (
+                    "get", "upper", "lower", "strip", "lstrip", "rstrip", "startswith", "endswith", "split", "find", "rfind", "replace", "count", "index", "keys", "values", "items", "ljust", "rjust"):
+                try:
+                    r = getattr(recv, n.func.attr)(*args)
+                    if n.func.attr in ("keys", "values", "items"):
+                        r = list(r)
+                    return [(q, Const(r))]
+                except Exception:
+                    return None
+            if not (isinstance(n.func.value, ast.Name) and n.func.value.id in ("self", "cls")):
+                return None
+            vals = vals[1:]
+        if isinstance(n.func, ast.Name) and n.func.id in ("len", "type", "min", "max", "abs", "bool", "int", "str", "ord", "chr", "any", "all", "sorted", "tuple", "list", "isinstance") and not n.keywords:
+            try:
+                import builtins
+                return [(q, Const(getattr(builtins, n.func.id)(*vals)))]
+            except Exception:
+                return None
+        if self.resolver is None:
+            return None
+        r = self.resolver(n)
+        if r is None:
+            return None
+        fnode, params = r
+        if len(params) < len(n.args):
+            return None
+        env = dict(self.consts)
+        defaults = fnode.args.defaults
+        for pname, d in zip(params[len(params) - len(defaults):], defaults):
+            try:
+                from .consteval import fold
+                env[pname] = fold(d, self.consts)
+            except Exception:
+                pass
+        for pname, v in zip(params, vals[:len(n.args)]):
+            env[pname] = v
+        for k, v in zip(n.keywords, vals[len(n.args):]):
+            env[k.arg] = v
+        try:
+            body = fnode.body
+            return [(q, Const(fold_body(body, env)))]
+        except Raised as e:
+            self.results.append(Outcome("raise", q, e.name, n))
+            return []
+        except NotConst:
+            return None
+        except Exception:
+            return None
 
     def do_inline(self, p, f, args, node):
         fn = self.inline[f]
@@ -573,6 +670,28 @@ class Interp:
             name = U(s.exc.func) if isinstance(s.exc, ast.Call) else (U(s.exc) if s.exc else "reraise")
             self.results.append(Outcome("raise", p, name, s))
             return []
+        if isinstance(s, ast.For):
+            its = self.ev(p, s.iter)
+            if len(its) == 1 and isinstance(its[0][1], Const):
+                try:
+                    seq = list(its[0][1].v.items()) if False else list(its[0][1].v)
+                except TypeError:
+                    seq = None
+                if seq is not None and len(seq) <= 24:
+                    paths = [its[0][0]]
+                    for x in seq:
+                        nxt = []
+                        for q in paths:
+                            if isinstance(s.target, (ast.Tuple, ast.List)) and isinstance(x, (tuple, list)) and len(x) == len(s.target.elts):
+                                for e, y in zip(s.target.elts, x):
+                                    q.env[U(e)] = Const(y)
+                            else:
+                                q.env[U(s.target)] = Const(x)
+                            nxt += self.run_block([q], s.body)
+                        paths = nxt
+                        if len(paths) > self.maxpaths:
+                            raise PathCap("loop unrolling")
+                    return paths
         if isinstance(s, ast.For) and self.loop_summary:
             return self.summarise_loop(p, s)
         if isinstance(s, ast.For):
